@@ -188,13 +188,19 @@ fn cmd_selfcheck(args: &[String]) -> i32 {
     }
     pool::cleanup(&base);
     let mut bad = 0;
+    let mut inconclusive = 0;
     for (a, b) in hashes[0].iter().zip(hashes[1].iter()) {
+        if a.1.starts_with("TimedOut") || b.1.starts_with("TimedOut") {
+            // the watchdog fired in one of the two rounds (machine load): says nothing about determinism
+            inconclusive += 1;
+            continue;
+        }
         if a != b {
             println!("DIVERGED run {}: {} vs {}", a.0, a.1, b.1);
             bad += 1;
         }
     }
-    println!("determinism: {} seed pairs, {} diverged", n, bad);
+    println!("determinism: {} seed pairs, {} diverged, {} inconclusive (watchdog)", n, bad, inconclusive);
     if bad > 0 {
         1
     } else {
